@@ -314,6 +314,8 @@ func (d *AuthGrid) Eval(x *Exec, root *Node, gc GridCase) GridResult {
 	}
 	o, after := x.Do(root, Call{Script: Script(h, r.Method, r.Args(d, w)...), Signers: signers, Adv: adv, Label: gc.Name})
 	diff := DiffDumps(w.FullDump(root.L), w.FullDump(after.L))
+	// "moves no tokens": every GAS and NEO account record of the chain, not only the tracked ones
+	diff = append(diff, DiffDumps(w.TokenAccounts(root.L), w.TokenAccounts(after.L))...)
 	inert := len(diff) == 0 && len(o.Notifs) == 0
 	out := "refused"
 	kind := strings.TrimPrefix(strings.TrimPrefix(r.Kind, "redesignate"), "-")
@@ -712,6 +714,7 @@ func (d *AuthArgGrid) Eval(x *Exec, root *Node, gc GridCase) GridResult {
 	}
 	o, after := x.Do(root, Call{Script: Script(h, r.Method, args...), Signers: signers, Adv: adv, Label: gc.Name})
 	diff := DiffDumps(w.FullDump(root.L), w.FullDump(after.L))
+	diff = append(diff, DiffDumps(w.TokenAccounts(root.L), w.TokenAccounts(after.L))...)
 	out := "refused"
 	if o.Halt {
 		out = "halted-without-effect"
